@@ -106,7 +106,8 @@ Print Assumptions C17_clumpstr_terminates.
    exactly the not-yet-clumped variants in the window that pass the r2 test (as a set,
    without repetition); stops only when nothing is eligible. *)
 Theorem C17_greedy_okb_sound :
-  forall p1 kb pb obs st, greedy_okb p1 kb pb st obs = true -> greedy_ids p1 kb pb st obs.
+  forall p1 kb pb obs st,
+  greedy_okb p1 kb (fun iv c => Some (pb iv c)) st obs = true -> greedy_ids p1 kb pb st obs.
 Proof. exact greedy_okb_sound. Qed.
 Print Assumptions C17_greedy_okb_sound.
 
